@@ -67,8 +67,11 @@ func suiteC13(r *Run) {
 	r.Assumptions = append(r.Assumptions, "crypto/tls handshake and httptest's certificate", "grpc metadata.Join/New")
 	rng := r.Rng
 
-	credMaps := []map[string]string{nil, {}, {"authorization": "tok"}, {"Authorization": "Tok", "x-extra": "1"}, {"k": "from-creds"}, {"k": "c1", "K2": "c2", "k3-bin": "\x00\xff"}}
-	callerMDs := []metadata.MD{nil, metadata.Pairs("k", "caller"), metadata.Pairs("k", "a", "k", "b", "other", "o"), metadata.Pairs("authorization", "caller-tok")}
+	// (keys that a proxy would use to name the original client are ordinary metadata here: they must not move the handler's peer)
+	credMaps := []map[string]string{nil, {}, {"authorization": "tok"}, {"Authorization": "Tok", "x-extra": "1"}, {"k": "from-creds"}, {"k": "c1", "K2": "c2", "k3-bin": "\x00\xff"},
+		{"x-forwarded-for": "203.0.113.7", "authorization": "tok"}}
+	callerMDs := []metadata.MD{nil, metadata.Pairs("k", "caller"), metadata.Pairs("k", "a", "k", "b", "other", "o"), metadata.Pairs("authorization", "caller-tok"),
+		metadata.Pairs("x-forwarded-for", "198.51.100.9, 10.0.0.1", "forwarded", "for=198.51.100.9", "x-real-ip", "198.51.100.9")}
 
 	// ---------- unit: ApplyPerRPCCreds
 	for i := 0; i < r.Budget(200, 5000); i++ {
@@ -289,6 +292,9 @@ func suiteC13(r *Run) {
 		// peer
 		if seenPeer == nil || seenPeer.Addr == nil || seenPeer.Addr.String() == "" {
 			r.Violate("peer/handler-peer-missing", "the handler's peer reports the remote address", sprintf("%s: handler peer %v", tp.name, seenPeer), c, "")
+		} else if a := seenPeer.Addr.String(); tp.name == "httpmem" && a != "192.0.2.1:1234" ||
+			strings.HasPrefix(tp.name, "http") && tp.name != "httpmem" && !strings.HasPrefix(a, "127.0.0.1:") && !strings.HasPrefix(a, "[::1]:") {
+			r.Violate("peer/handler-peer-not-remote-address", "the handler's peer reports the remote address", sprintf("%s: handler peer address %q is not the address of the connection", tp.name, a), c, a)
 		} else if tp.name == "httptls" {
 			if _, ok := seenPeer.AuthInfo.(credentials.TLSInfo); !ok {
 				r.Violate("peer/handler-peer-no-tls", "TLS authentication info whenever the connection uses TLS", sprintf("handler peer AuthInfo %T", seenPeer.AuthInfo), c, "")
